@@ -446,6 +446,22 @@ def gen_history(L, K, rng, nsteps, allow_overlap=False):
     return g.finish(), g.stats
 
 
+def gen_overlap_erase(L, K, rng, tries=12):
+    """a history on a non-trivially-relocatable VaryingSize list that ENDS in an erase which
+    moves an element forward by fewer bytes than it is long (the recorded C01/C06 finding:
+    contents are clobbered there).  What such an erase does to the allocator, the block and the
+    elements in front is still specified (C16, C07): the scripts are judged by the oracle alone"""
+    if all_triv(L) or not has_varying(L):
+        return None
+    for _ in range(tries):
+        lines, st = gen_history(L, K, rng, rng.randrange(8, 30), allow_overlap=True)
+        if st.get("erase-overlap(known finding)"):
+            st = dict(st)
+            st["overlap-erase-oracle-only"] = 1
+            return lines, st
+    return None
+
+
 def gen_fill(L, K, rng, strict_block, via_reserve=False):
     """fill a vector to its documented limits: N elements, B bytes of varying payload
     distributed adversarially; with strict_block=False only the DOCUMENTED preconditions
@@ -708,6 +724,20 @@ def gen_empty(L, K, rng):
             g.lines.append("observe 0")
         else:
             g.lines.append("junk %d" % rng.choice([0, 85, 170, 255]))
+    # comparing the empty vector with other EMPTY vectors: of another capacity, with other fixed
+    # sizes, default-constructed (seeded change C18g)
+    if rng.random() < 0.5 and g.slots[3] is None:
+        if rng.random() < 0.3:
+            g.lines.append("default 3")
+            w = SpecVec(L, 0, 0, [0] * nfixed(L), 0, K)
+            w.null = True
+            w.block = 0
+            g.slots[3] = w
+        else:
+            g.op_mkvec(3, cap=rng.choice([0, 1, 3]), fixed=[rng.choice([0, 1, 2, 3, 4, 7]) for _ in range(nfixed(L))])
+        g.lines.append("cmpvec 0 3")
+        g.lines.append("cmpvec 3 0")
+        g.stat("compare-two-empty-vectors")
     # copying the empty vector over another vector - of the same or another capacity, with other
     # fixed sizes and byte budget, holding elements or not (seeded change C18d)
     if rng.random() < 0.5:
